@@ -759,4 +759,124 @@ def r9(F, R):
     R.floor(12)
 
 
-RULES = [("R9", r9, None), ("R8", r8, ["all", "junit"]), ("R7", r7, ["all", "json"]), ("R6", r6, ["all", "json"]), ("R5", r5, ["all", "junit"]), ("R1", r1, None), ("R2", r2, None), ("R3", r3, None), ("R4", r4, None)]
+# ---- R10: Cucumber JSON — an entry created for a key is found again by the look-up (constructor / comparator agreement) ------
+_CONV = re.compile(r"(ToOwned::to_owned|str::to_owned|ToString::to_string|String::from|String::as_str|String::as_ref|Clone::clone|Cow::into_owned|Into::into|From::from|"
+                   r"Option::<.*>::as_ref|Option::<.*>::as_deref|Deref::deref|Borrow::borrow|AsRef::as_ref)$")
+
+
+def _norm(t, sub=None):
+    """Structural normal form of a term: call ids dropped, references / conversions that do not change the text dropped,
+    sub-terms replaced through `sub` (a function term -> term | None)."""
+    if not isinstance(t, tuple) or not t:
+        return t
+    if sub is not None:
+        r = sub(t)
+        if r is not None:
+            return _norm(r)
+    k = t[0]
+    if k in ("ref", "refto", "deref", "conv") and len(t) == 2:
+        from .termtypes import place_term
+        inner = place_term(t[1]) if k == "ref" else t[1]
+        return _norm(inner if inner is not None else t[1], sub)
+    if k == "call":
+        if _CONV.search(t[1]) and len(t[2]) == 1:
+            return _norm(t[2][0], sub)
+        return ("call", re.sub(r"<[^<>]*(<[^<>]*(<[^<>]*>[^<>]*)*>[^<>]*)*>", "", t[1]), tuple(_norm(x, sub) for x in t[2]), 0)
+    return tuple(_norm(x, sub) if isinstance(x, tuple) else x for x in t)
+
+
+def check_found_again(F, R, ctor, cmp_, adt, inst):
+    """`cmp_(&ctor(key), key)` must not be false: on the deep tables of both, no row of the comparator that certainly applies to an
+    entry built by some row of the constructor (every condition decided by what that row stored / learned) returns `false`."""
+    from . import deep as D
+    info = F.adt(adt)
+    crow = D.Deep(F, ctor, max_paths=400, opaque=r"trim_path$|to_kebab_case$").run()
+    prow = D.Deep(F, cmp_, max_paths=400, opaque=r"trim_path$|to_kebab_case$").run()
+    if not crow or not prow or any(p.cut for p in crow + prow):
+        raise Unverifiable(f"{inst}: empty path table or a loop")
+    nf = len(info["variants"][0]["fields"])
+    bad = []
+    n_pairs = 0
+    for c in crow:
+        if not (D.is_variant(c.ret, adt) and len(c.ret[3]) == nf):
+            raise Unverifiable(f"{inst}: the constructor returns {D.fmt(ctor, c.ret)[:60]}")
+        known = {}
+        for a, o in c.conds:
+            known[_norm(a)] = o
+
+        def sub(t, c=c):
+            if t == ("arg", 2):
+                return ("arg", 1)
+            if t[0] == "field" and t[1] in (("deref", ("arg", 1)), ("arg", 1)) and isinstance(t[2], int) and t[2] < nf:
+                return ("stored", c.ret[3][t[2]])
+            return None
+
+        def ev(t):
+            n = _norm(t, sub)
+            # unwrap what the constructor stored
+            def unstore(x):
+                if isinstance(x, tuple) and x and x[0] == "stored":
+                    return _norm(x[1])
+                return tuple(unstore(y) if isinstance(y, tuple) else y for y in x) if isinstance(x, tuple) else x
+            return unstore(n)
+        for p in prow:
+            verdict = "certain"
+            for a, o in p.conds:
+                if a[0] == "discr":
+                    v = ev(a[1])
+                    if isinstance(v, tuple) and v and v[0] == "variant":
+                        ok = v[2] in str(o).split("|")
+                    elif ("discr", v) in known:
+                        ok = bool(set(str(known[("discr", v)]).split("|")) & set(str(o).split("|")))
+                        if ok and not set(str(known[("discr", v)]).split("|")) <= set(str(o).split("|")):
+                            ok = None
+                    else:
+                        ok = None
+                elif (a[0] == "call" and re.search(r"::eq$|PartialEq.*::eq$", a[1]) and len(a[2]) == 2) or (a[0] == "bin" and a[1] == "Eq"):
+                    x, y = (a[2][0], a[2][1]) if a[0] == "call" else (a[2], a[3])
+                    same = ev(x) == ev(y)
+                    ok = (o is True) if same else None
+                else:
+                    na = ev(a)
+                    ok = (known[na] == o) if na in known else None
+                if ok is False:
+                    verdict = "excluded"
+                    break
+                if ok is None:
+                    verdict = "possible"
+            if verdict == "excluded":
+                continue
+            n_pairs += 1
+            ret = p.ret
+            if ret == ("const", False) and verdict == "certain":
+                bad.append((c, p))
+    if bad:
+        c, p = bad[0]
+        conds = " ∧ ".join(f"{D.fmt(ctor, a)[:70]}={o}" for a, o in c.conds) or "always"
+        why = " ∧ ".join(f"{D.fmt(cmp_, a)[:70]}={o}" for a, o in p.conds)
+        R.violation(inst, cmp_, f"an entry built by `{ctor.short.rsplit('::', 2)[-2]}::{ctor.short.rsplit('::', 1)[-1]}` for a key with [{conds}] never compares equal to that key "
+                    f"(`{cmp_.short[-60:]}` is false whenever [{why}]): the look-up misses it and pushes a duplicate entry for every event")
+    else:
+        R.ok(inst, cmp_, f"{len(crow)} constructor rows x {len(prow)} comparator rows, {n_pairs} compatible pairs, none certainly unequal")
+
+
+def r10(F, R):
+    """Cucumber JSON: the entry created for a feature is found again — `json::Feature::new(f) == f` can never be false."""
+    JS = "writer::json::"
+    cmps = [b for b in F.crate_bodies() if (b.impl or {}).get("trait") == "std::cmp::PartialEq" and (b.impl or {}).get("self_adt", "").startswith(JS) and b.name.endswith("::eq")]
+    if not cmps:
+        if any(b.name.startswith(JS) for b in F.crate_bodies()):
+            raise Unverifiable("no look-up comparator of a json:: entry type found")
+        return
+    for cmp_ in cmps:
+        adt = cmp_.impl["self_adt"]
+        key_ty = cmp_.locals[2]
+        ctors = [b for b in F.crate_bodies() if (b.impl or {}).get("self_adt") == adt and not (b.impl or {}).get("trait") and b.kind in ("Fn", "AssocFn") and b.arg_count == 1 and
+                 b.locals[1] == key_ty and re.sub(r"<.*", "", b.locals[0]) in (adt, "Self")]
+        if len(ctors) != 1:
+            raise Unverifiable(f"constructor of {adt} from {key_ty}: {len(ctors)}")
+        check_found_again(F, R, ctors[0], cmp_, adt, f"json/entry-found-again/{adt.rsplit('::', 1)[-1]}")
+    R.floor(1)
+
+
+RULES = [("R10", r10, ["all", "json"]), ("R9", r9, None), ("R8", r8, ["all", "junit"]), ("R7", r7, ["all", "json"]), ("R6", r6, ["all", "json"]), ("R5", r5, ["all", "junit"]), ("R1", r1, None), ("R2", r2, None), ("R3", r3, None), ("R4", r4, None)]
